@@ -437,6 +437,7 @@ with reports.handle_reports(report_handler):
     # emit_files: one write per make_* file inside the second block, IOError -> reports.error('io-error'), loop continues
     loop = [x for x in ef.body if isinstance(x, ast.For)]
     need(len(loop) == 1, "Compiler.emit_files: loop shape changed")
+    need(src(loop[0].iter) == "self.emitted_files", "Compiler.emit_files no longer walks the list self.emitted_files in source order: " + src(loop[0].iter))
     ef_ids = []
     for n in ast.walk(loop[0]):
         if isinstance(n, ast.ExceptHandler):
